@@ -66,6 +66,24 @@ def recRunFast (st : List Vec) : List (Option Vec) → List (Option Rat)
   | [] => []
   | o :: os => recValueFast (recStep st o) :: recRunFast (recStep st o) os
 
+/-- the reference point of a history (`none` while nothing is recorded) -/
+def refOf (objs : List Vec) : Option Vec :=
+  if objs.isEmpty then none else some (worst (recPts objs))
+
+/-- a reference point kept INCREMENTALLY: one exact componentwise maximum per recorded job (what an
+implementation that does not recompute `np.max(objectives, axis=0)` on every call has to maintain);
+a failure leaves it alone -/
+def refStep (r : Option Vec) : Option Vec → Option Vec
+  | none => r
+  | some v =>
+    match r with
+    | none => some (negVec v)
+    | some r => some (vmax r (negVec v))
+
+def refRun (r : Option Vec) : List (Option Vec) → Option Vec
+  | [] => r
+  | o :: os => refRun (refStep r o) os
+
 /-- `a > b` on recorded values (`none` = `-inf`) -/
 def gtVal : Option Rat → Option Rat → Bool
   | none, _ => false
